@@ -81,6 +81,10 @@ def get_volume(cont, pos_x, pos_y, pix, fix_orientation=False):
         # If the contour has less than 4 pixels, the computation will fail.
         # In that case, the value np.nan is already assigned.
         cc = cont[ii]
+        if not (np.isfinite(pos_x[ii]) and np.isfinite(pos_y[ii])):
+            # The volume cannot be computed without a valid centroid.
+            # The value np.nan is already assigned.
+            continue
         if cc.shape[0] >= 4:
             # Center contour coordinates with given centroid
             contour_x = cc[:, 0] - pos_x[ii] / pix
